@@ -226,6 +226,16 @@ func TestCorpusC12(t *testing.T) {
 		if err != nil {
 			t.Fatalf("%s: %v", f, err)
 		}
+		var sk syskillReplay
+		if err := json.Unmarshal(r.Script, &sk); err == nil && sk.Kind == "log" {
+			// a failure of the syscall-level crash sweep: same script, same kill point
+			if syskillUnavailable("C12") {
+				continue
+			}
+			sig, detail, _, _, _ := runSyskillLog(t, fmt.Sprintf("%s/r%d", base, i), sk.Log, 0, 0, sk.Point)
+			corpusResult(t, "C12", f, sig, detail)
+			continue
+		}
 		var script store.LogScript
 		if err := json.Unmarshal(r.Script, &script); err != nil {
 			t.Fatalf("%s: %v", f, err)
